@@ -7,7 +7,9 @@ PID = "C16"
 RULE = ("A generated component forest: 1-4 component templates with 0-1 type parameter, 1-3 relations each (some `overridable`), facts "
         "and rules over local relations, inherited relations, global EDB relations and relations of nested instances; single and "
         "multiple inheritance with type arguments passed on; `.override` of inherited relations (possibly declared two levels up); "
-        "nested `.init` inside components; 1-3 top-level instantiations (several of one template, with `number` or a numeric subtype as "
+        "nested `.init` inside components; in 35% of the cases with inheritance a wrapper template declaring NESTED templates -- one "
+        "shadowing the name of a top-level base template, one derived from a top-level template whose own base carries the shadowed "
+        "name (base names resolve where a template is declared, `.init` names where the init stands); 1-3 top-level instantiations (several of one template, with `number` or a numeric subtype as "
         "type argument); outer rules reading `inst.rel` and `inst.sub.rel`. Oracle: the flat program produced by this check's own "
         "expansion model (inherit content bottom-up, drop inherited clauses of overridden relations, substitute type parameters, "
         "prefix names with the instantiation path, `a.b.r` spelt `a_b_r`) must give, for every output relation, exactly the tuples "
@@ -26,6 +28,7 @@ class Comp:
         self.overrides = []        # [rel]
         self.clauses = []          # [(head_rel, head_args, body)]  body: list of (kind, ref, args) / ('cmp', text)
         self.inits = []            # [(inst, comp, arg or None)]
+        self.nested = []           # component templates declared inside this one (lexically scoped names)
 
 
 def gen(ch):
@@ -131,12 +134,47 @@ def gen(ch):
                     body.append(("cmp", "%s != %d" % (ch.choice(bound), ch.int(0, 5)), None))
                 c.clauses.append((r, head, body))
         comps.append(c)
+    # lexical scoping of component names: a wrapper template that declares (a) a nested template SHADOWING the name of a
+    # top-level base template and (b) a nested template derived from a top-level one whose own base carries the shadowed name.
+    # Base names are resolved where a template is DECLARED: the derived chain must keep using the top-level template, while
+    # `.init` inside the wrapper must pick the nested one.
+    wrapper = None
+    chained = [c for c in comps if c.bases]
+    if chained and ch.bool(0.35):
+        mid = ch.choice(chained)
+        target = mid.bases[0][0]
+        shadow = Comp(target.name)
+        shadow.param = target.param
+        shadow.decls.append(("q%d" % len(comps), [shadow.param or "number"], False))
+        for v in sorted({ch.int(6, 9) for _ in range(ch.int(1, 2))}):
+            shadow.clauses.append(("q%d" % len(comps), [str(v)], []))
+        d = Comp("D%d" % len(comps))
+        d.bases.append((mid, "number" if mid.param else None))
+        d.decls.append(("dd%d" % len(comps), ["number"], False))
+        inh = {}
+
+        def allrels2(b):
+            for bb, _ in b.bases:
+                allrels2(bb)
+            for (r, tys, ov) in b.decls:
+                inh[r] = len(tys)
+        allrels2(mid)
+        src = ch.choice(sorted(inh))
+        d.clauses.append(("dd%d" % len(comps), ["x"], [("local", src, ["x"] + ["y"] * (inh[src] - 1))]))
+        wrapper = Comp("W")
+        wrapper.nested = [shadow, d]
+        wrapper.inits = [("d", d, None), ("s", shadow, "number" if shadow.param else None)]
+        if ch.bool(0.5):
+            wrapper.nested.reverse()
+        comps.append(wrapper)
     # top-level instantiations
     inits = []
     for i in range(ch.int(2, 3)):
         c = ch.choice(comps[-2:]) if ch.bool(0.7) else ch.choice(comps)
         arg = ch.choice(TYPES) if c.param else None
         inits.append(("i%d" % i, c, arg))
+    if wrapper is not None:
+        inits = [x for x in inits if x[1] is not wrapper] + [("w", wrapper, None)]
     case = {"glob": glob, "comps": comps, "inits": inits}
     return build(case, ch)
 
@@ -167,20 +205,24 @@ def print_components(case):
         out.append(".decl %s(%s)" % (g, ", ".join("a%d:Sub" % i for i in range(ar))))
         for f in facts:
             out.append("%s(%s)." % (g, ", ".join(map(str, f))))
-    for c in case["comps"]:
+    def emit(c, ind):
         hdr = ".comp %s%s" % (c.name, "<T>" if c.param else "")
         if c.bases:
             hdr += " : " + ", ".join(b.name + ("<%s>" % a if b.param else "") for b, a in c.bases)
-        out.append(hdr + " {")
+        out.append(ind + hdr + " {")
+        for n in c.nested:
+            emit(n, ind + "  ")
         for (r, tys, ov) in c.decls:
-            out.append("  .decl %s(%s)%s" % (r, ", ".join("a%d:%s" % (i, t) for i, t in enumerate(tys)), " overridable" if ov else ""))
+            out.append(ind + "  .decl %s(%s)%s" % (r, ", ".join("a%d:%s" % (i, t) for i, t in enumerate(tys)), " overridable" if ov else ""))
         for r in c.overrides:
-            out.append("  .override %s" % r)
+            out.append(ind + "  .override %s" % r)
         for (inst, sc, arg) in c.inits:
-            out.append("  .init %s = %s%s" % (inst, sc.name, "<%s>" % arg if sc.param else ""))
+            out.append(ind + "  .init %s = %s%s" % (inst, sc.name, "<%s>" % arg if sc.param else ""))
         for (r, head, body) in c.clauses:
-            out.append("  " + fmt_clause(r, head, body))
-        out.append("}")
+            out.append(ind + "  " + fmt_clause(r, head, body))
+        out.append(ind + "}")
+    for c in case["comps"]:
+        emit(c, "")
     for (inst, c, arg) in case["inits"]:
         out.append(".init %s = %s%s" % (inst, c.name, "<%s>" % arg if c.param else ""))
     return out
@@ -262,7 +304,8 @@ def build(case, ch):
     nested = any(c.inits for c in case["comps"])
     overrides = any(c.overrides for c in case["comps"])
     inherit = any(c.bases for c in case["comps"])
-    return {"program": "\n".join(comp_lines) + "\n", "flat": "\n".join(flat_lines) + "\n", "outs": outs, "facts": {},
+    shadowing = any(c.nested for c in case["comps"])
+    return {"shadowing": shadowing, "program": "\n".join(comp_lines) + "\n", "flat": "\n".join(flat_lines) + "\n", "outs": outs, "facts": {},
             "multi": multi, "nested": nested, "overrides": overrides, "inherit": inherit}
 
 
@@ -296,8 +339,8 @@ def judge(case, st=None):
     if st is not None:
         if (case["multi"] or case["nested"]) and (case["overrides"] or case["inherit"]) and nonempty >= 2:
             st.nontrivial.add(common.h(case["program"]))
-            for k in ("multi", "nested", "overrides", "inherit"):
-                if case[k]:
+            for k in ("multi", "nested", "overrides", "inherit", "shadowing"):
+                if case.get(k):
                     st.classes[k] += 1
             st.sample({"component_program": case["program"], "flat_expansion": case["flat"]})
         else:
